@@ -149,7 +149,7 @@ func verifC43Classify(c *kit.Case, tag string, max int32, rounds []int, schedule
 }
 
 func TestVerifC43_AtomicAdmission(t *testing.T) {
-	kit.Run(t, "C43", kit.Budget{Quick: 10000, Thorough: 100000},
+	kit.Run(t, "C43", kit.Budget{Quick: 20000, Thorough: 200000},
 		"max 1..4, 2-6 logical tasks each running the caller protocol 1-3 times, drawn schedule of <= 60 task steps, admission (CanProcess+StartProcessing) of a task is one schedule step; oracle: tasks between Start and End <= max after every step; non-trivial = >= 2 admissions and running == max at some point; distinct by (max, rounds, schedule)",
 		func(rt *rapid.T, c *kit.Case) {
 			max, rounds, schedule := verifC43Gen(rt)
@@ -167,7 +167,7 @@ func TestVerifC43_AtomicAdmission(t *testing.T) {
 }
 
 func TestVerifC43_FreeInterleaving(t *testing.T) {
-	kit.Run(t, "C43", kit.Budget{Quick: 10000, Thorough: 100000},
+	kit.Run(t, "C43", kit.Budget{Quick: 20000, Thorough: 200000},
 		"same generator, CanProcess and StartProcessing of a task are separate schedule steps (any other task may run in between); an overshoot in which a running task's check-then-start window contained another task's StartProcessing is the known finding "+verifC43KnownKey+", any other overshoot is a violation",
 		func(rt *rapid.T, c *kit.Case) {
 			max, rounds, schedule := verifC43Gen(rt)
